@@ -268,6 +268,10 @@ def rule4_timed(ctx, v):
         lp = lib.loop_containing(f, g)
         ctx.ob('C13.4', 'timedjoin: clock re-read every iteration', lp is not None and clk and clk[0].block.id in lp['blocks'],
                'the clock read is inside the retry loop', loc=g.loc)
+    ctx.ob('C13.4', 'timedjoin: first attempt precedes the deadline test',
+           any(not f.in_loop(t) and all(f.dominates_f(t, g) for g in gts) for t in trys),
+           'a target that has already finished is reaped even if the deadline has passed (try first); otherwise the poll idiom with a '
+           'zero timeout never reaps it', loc=f.loc)
     ys = call_sites(f, 'myth_yield_ex_body')
     ctx.ob('C13.4', 'timedjoin: yields between tries', len(ys) >= 1 and all(f.in_loop(y) for y in ys),
            'the waiting loop yields the worker', loc=f.loc)
@@ -314,6 +318,17 @@ def run(ctx):
         rule3_recycle(ctx, fl)
         rule4_timed(ctx, v)
         rule5_finisher(ctx, fl)
+        from . import c12
+        ctx.doc('C13.7', 'the reaping entry points do not use a worker env obtained before they blocked (stale-value dataflow, shared with '
+                'C12.3): a record released to the free list of the worker the joiner started on is never found again by the worker '
+                'that allocates, so create/reap cycles grow without bound')
+        c12.rule3_env(ctx, fl, rule='C13.7', only=['myth_join', 'myth_tryjoin', 'myth_timedjoin', 'myth_detach'], units=[(NATIVE, None)])
+        with ctx.shared({'C12.4': 'C13.8'}, keep=lambda k: k.startswith(('alloc:', 'free:', 'alloc and free')), floor=12,
+                        doc='reaping recycles the stack (shared with C12.4): the release reads the block size the allocation wrote into the '
+                            'stack header, so a custom-size stack returns to the size class it will be taken from again'):
+            v2 = ctx.view(NATIVE, roots=['get_new_myth_thread_struct_stack', c12.STACK_FREE, 'myth_flmalloc', 'myth_flfree'],
+                          stops=('myth_freelist_pop', 'myth_freelist_push', 'myth_mmap'), flavour=fl)
+            c12.rule4_affine(ctx, v2)
 
 
 SCHED = 'src/myth_sched_func.h'
